@@ -3,11 +3,13 @@ package c03
 import (
 	"bufio"
 	"bytes"
+	"crypto/tls"
 	"fmt"
 	"io"
 	"net"
 	"net/http"
 	"runtime"
+	"strings"
 	"sync"
 	"sync/atomic"
 	"testing"
@@ -239,6 +241,121 @@ func FuzzClientBytes(f *testing.F) {
 		closed, v := feed(input)
 		kit.FuzzAccount("fuzz-client-bytes", fuzzRule, input, closed)
 		kit.FuzzFail(t, "C03", "fuzz-client-bytes", "FuzzClientBytes", v, input)
+	})
+}
+
+// ---------------------------------------------------------------- CONNECT + TLS sessions
+
+// HelloCase is a CONNECT in one of the forms the request parser accepts,
+// followed - when the proxy answers 200 - by a TLS handshake with or without a
+// server name and one request inside the session.
+type HelloCase struct {
+	Target string `json:"target"` // request-target of the CONNECT
+	Host   string `json:"host"`   // value of the Host header; "" = no Host header at all
+	SNI    string `json:"sni"`    // server_name of the ClientHello; "" = the extension is absent
+	Inner  string `json:"inner"`  // request line target sent inside the session
+}
+
+var helloTargets = []string{"healthy.test:443", "/tunnel", ":443", "[::1]:443", "[::1]", "healthy.test", "*", "127.0.0.1:443", "http://healthy.test/", "[", "]:443", "[]", "[]:443", "a:b:c"}
+var helloHosts = []string{"", "healthy.test:443", "healthy.test", "[::1]", ":443", "[]"}
+var helloSNI = []string{"", "healthy.test", "xn--verif-.test"}
+
+func (c HelloCase) shape() string {
+	sh := "connect-authority"
+	switch {
+	case strings.HasPrefix(c.Target, "/") || c.Target == "*" || strings.Contains(c.Target, "://"):
+		sh = "connect-non-authority-target"
+	case strings.HasPrefix(c.Target, "[") || strings.HasPrefix(c.Target, "]") || strings.Count(c.Target, ":") > 1:
+		sh = "connect-bracketed-target"
+	case strings.HasPrefix(c.Target, ":"):
+		sh = "connect-empty-host-target"
+	}
+	if c.Host == "" {
+		sh += "-no-host-header"
+	}
+	if c.SNI == "" {
+		sh += "-hello-without-sni"
+	}
+	return sh
+}
+
+func runHello(c HelloCase) (v kit.Verdict) {
+	pr, err := shared()
+	if err != nil {
+		return kit.Failf("C03/harness/mitm-setup", "%v", err)
+	}
+	conn, err := net.DialTimeout("tcp", pr.Addr, 5*time.Second)
+	if err != nil {
+		return kit.Failf("C03/client-tls-sessions/"+c.shape()+"/proxy-dead", "cannot connect: %v", err)
+	}
+	defer conn.Close()
+	head := "CONNECT " + c.Target + " HTTP/1.1\r\n"
+	if c.Host != "" {
+		head += "Host: " + c.Host + "\r\n"
+	}
+	head += "\r\n"
+	conn.SetDeadline(time.Now().Add(kit.T()))
+	conn.Write([]byte(head))
+	br := bufio.NewReader(conn)
+	res, err := http.ReadResponse(br, &http.Request{Method: "CONNECT"})
+	if err == nil && res.StatusCode == 200 && br.Buffered() == 0 {
+		tc := tls.Client(conn, &tls.Config{ServerName: c.SNI, InsecureSkipVerify: true})
+		if tc.Handshake() == nil {
+			fmt.Fprintf(tc, "GET %s HTTP/1.1\r\nHost: healthy.test\r\nConnection: close\r\n\r\n", c.Inner)
+			io.Copy(io.Discard, tc)
+		}
+	}
+	conn.Close()
+
+	// whatever became of the session: the process lives and serves a fresh connection
+	probe := func(bound time.Duration) error {
+		cl, err := netkit.Dial(pr.Addr)
+		if err != nil {
+			return err
+		}
+		defer cl.Close()
+		cl.Write([]byte("GET http://healthy.test/third HTTP/1.1\r\nHost: healthy.test\r\n\r\n"))
+		res, _, err := cl.ReadResponse("GET", bound)
+		if err != nil {
+			return err
+		}
+		if res.Status != 200 || string(res.Body) != marker3 {
+			return fmt.Errorf("status %d body %q", res.Status, trunc(res.Body, 60))
+		}
+		return nil
+	}
+	if err := probe(kit.T()); err != nil {
+		if probe(3*kit.T()) == nil {
+			kit.Inconclusive("client-tls-sessions")
+			return nil
+		}
+		v.Addf("C03/client-tls-sessions/"+c.shape()+"/fresh-connection-not-served", "after %q and a ClientHello with server name %q a fresh connection got: %v", head, c.SNI, err)
+	}
+	return v
+}
+
+var propHello = &kit.Prop[HelloCase]{
+	ID: "C03", Name: "client-tls-sessions", Journal: true,
+	Rule: "every CONNECT request-target form the request parser accepts (authority, path, *, absolute URI, bracketed and empty hosts) x Host header (absent, authority, bare name, bracketed, empty host) x ClientHello with/without server name, one request inside the session, against the long-lived MITM-configured proxy; afterwards a fresh connection must be served; non-trivial = the target is not a plain host:port or the Host header or the server name is missing",
+	Run:  runHello,
+	NonTrivial: func(c HelloCase) bool {
+		return c.shape() != "connect-authority"
+	},
+	Classes: func(c HelloCase) []string { return []string{c.shape()} },
+}
+
+func TestClientTLSSessions(t *testing.T) {
+	propHello.Enumerate(t, func(yield func(HelloCase) bool) {
+		for _, tg := range helloTargets {
+			for _, h := range helloHosts {
+				for i, sni := range helloSNI {
+					inner := []string{"/in", "https://healthy.test/in", "*"}[i%3]
+					if !yield(HelloCase{Target: tg, Host: h, SNI: sni, Inner: inner}) {
+						return
+					}
+				}
+			}
+		}
 	})
 }
 
